@@ -33,8 +33,8 @@ package go_clipper2
 //@   ensures [exact128] mathInt(result.Hi64)*pow2(64) + mathInt(result.Lo64) == mathInt(a)*mathInt(b)
 
 //@ func productsAreEqual
-//@   props C14 C15
-//@   requires absI(a) <= pow2(53) && absI(b) <= pow2(53) && absI(c) <= pow2(53) && absI(d) <= pow2(53)
+//@   props C14 C15 C13
+//@   requires absI(a) <= pow2(62) && absI(b) <= pow2(62) && absI(c) <= pow2(62) && absI(d) <= pow2(62)
 //@   assert after absD [abs] mathInt(absA) == absI(a) && mathInt(absB) == absI(b) && mathInt(absC) == absI(c) && mathInt(absD) == absI(d)
 //@   ensures [exact-except-1] (a != 1 && b != 1 && c != 1 && d != 1) ==> result == (a*b == c*d)
 //@   expect  [exact] result == (a*b == c*d)
@@ -906,10 +906,6 @@ package go_clipper2
 //@   props C03
 //@   panicfree
 
-//@ func checkCastInt64
-//@   props C03
-//@   panicfree
-
 //@ func clipperBase.AddPath
 //@   props C03
 //@   panicfree
@@ -950,10 +946,6 @@ package go_clipper2
 //@   props C03
 //@   panicfree
 
-//@ func dotProduct64
-//@   props C03
-//@   panicfree
-
 //@ func dotProductD
 //@   props C03
 //@   panicfree
@@ -966,14 +958,6 @@ package go_clipper2
 //@   props C03
 //@   panicfree
 
-//@ func getClosestPtOnSegment
-//@   props C03
-//@   panicfree
-
-//@ func getDx
-//@   props C03
-//@   panicfree
-
 //@ func getEdgesForPt
 //@   props C03
 //@   panicfree
@@ -983,10 +967,6 @@ package go_clipper2
 //@   panicfree
 
 //@ func getRealOutRec
-//@   props C03
-//@   panicfree
-
-//@ func getSegmentIntersectPt
 //@   props C03
 //@   panicfree
 
@@ -1086,3 +1066,69 @@ package go_clipper2
 //@   props C03
 //@   panicfree
 
+
+// ---------------------------------------------------------------------------------
+// C13 / C01: 64-bit products of coordinate differences, float slope arithmetic
+// ---------------------------------------------------------------------------------
+
+//@ spec dotP(a, b, c Point64) int64 = (b.X-a.X)*(c.X-b.X) + (b.Y-a.Y)*(c.Y-b.Y)
+//@ lemma crossTranslate props C13 C01: forallInt(tx, forallInt(ty, forallInt(ax, forallInt(ay, forallInt(bx, forallInt(by, forallInt(cx, forallInt(cy, cross(Point64{ax+tx, ay+ty}, Point64{bx+tx, by+ty}, Point64{cx+tx, cy+ty}) == cross(Point64{ax, ay}, Point64{bx, by}, Point64{cx, cy}) && dotP(Point64{ax+tx, ay+ty}, Point64{bx+tx, by+ty}, Point64{cx+tx, cy+ty}) == dotP(Point64{ax, ay}, Point64{bx, by}, Point64{cx, cy})))))))))
+//@ lemma crossScale props C13: forallInt(s, forallInt(ax, forallInt(ay, forallInt(bx, forallInt(by, forallInt(cx, forallInt(cy, cross(Point64{s*ax, s*ay}, Point64{s*bx, s*by}, Point64{s*cx, s*cy}) == s*s*cross(Point64{ax, ay}, Point64{bx, by}, Point64{cx, cy}))))))))
+
+//@ func CrossProduct variant maxcoord
+//@   props C13
+//@   budget 3
+//@   requires dom(pt1,61) && dom(pt2,61) && dom(pt3,61)
+
+//@ func CrossProduct variant safe30
+//@   props C13
+//@   requires dom(pt1,30) && dom(pt2,30) && dom(pt3,30)
+//@   ensures [sign] (result > 0) == (cross(pt1, pt2, pt3) > 0) && (result == 0) == (cross(pt1, pt2, pt3) == 0)
+
+//@ func dotProduct64
+//@   props C13 C01
+//@   requires dom(pt1,29) && dom(pt2,29) && dom(pt3,29)
+//@   ensures [sign] (result > 0) == (dotP(pt1, pt2, pt3) > 0) && (result == 0) == (dotP(pt1, pt2, pt3) == 0)
+
+//@ func dotProduct64 variant maxcoord
+//@   props C13
+//@   budget 3
+//@   requires dom(pt1,61) && dom(pt2,61) && dom(pt3,61)
+
+//@ func isCollinear variant maxcoord
+//@   props C13
+//@   requires dom(pt1,61) && dom(sharedPt,61) && dom(pt2,61)
+//@   ensures [exact-except-1] (sharedPt.X-pt1.X != 1 && pt2.Y-sharedPt.Y != 1 && sharedPt.Y-pt1.Y != 1 && pt2.X-sharedPt.X != 1) ==> result == (cross(pt1, sharedPt, pt2) == 0)
+
+//@ func getSegmentIntersectPt
+//@   props C01 C13
+//@   requires dom(ln1a,29) && dom(ln1b,29) && dom(ln2a,29) && dom(ln2b,29)
+//@   ensures [parallel] (cross(ln1a, ln1b, Point64{ln1b.X + (ln2b.X-ln2a.X), ln1b.Y + (ln2b.Y-ln2a.Y)}) == 0) == !result1
+//@   ensures [within-box] result1 ==> (min(ln1a.X, ln1b.X) <= result0.X && result0.X <= max(ln1a.X, ln1b.X) && min(ln1a.Y, ln1b.Y) <= result0.Y && result0.Y <= max(ln1a.Y, ln1b.Y))
+
+//@ func getSegmentIntersectPt variant maxcoord
+//@   props C13
+//@   budget 3
+//@   requires dom(ln1a,61) && dom(ln1b,61) && dom(ln2a,61) && dom(ln2b,61)
+
+//@ func getDx
+//@   props C01 C13
+//@   requires dom(pt1,61) && dom(pt2,61)
+//@   ensures [slope] pt2.Y != pt1.Y ==> result * toReal(pt2.Y-pt1.Y) == toReal(pt2.X-pt1.X) || absI(pt2.X-pt1.X) > pow2(53) || absI(pt2.Y-pt1.Y) > pow2(53)
+//@   ensures [horizontal] pt2.Y == pt1.Y ==> (result == ite(pt2.X > pt1.X, negInf, posInf))
+
+//@ func checkCastInt64
+//@   props C13
+//@   ensures [invalid] (val >= 2305843009213693951.0 || val <= -2305843009213693951.0) ==> result == 9223372036854775807
+//@   ensures [rounds] (val < 2305843009213693951.0 && val > -2305843009213693951.0) ==> (toReal(result) - val <= 0.5 && val - toReal(result) <= 0.5)
+
+//@ func getClosestPtOnSegment
+//@   props C01 C13
+//@   tier B
+//@   requires dom(offPt,29) && dom(seg1,29) && dom(seg2,29)
+//@   ensures [within-box] min(seg1.X, seg2.X) <= result.X && result.X <= max(seg1.X, seg2.X) && min(seg1.Y, seg2.Y) <= result.Y && result.Y <= max(seg1.Y, seg2.Y)
+
+//@ func PerpendicDistFromLineSqr64 variant maxcoord
+//@   props C13
+//@   requires dom(pt,61) && dom(line1,61) && dom(line2,61)
+//@   ensures [nonneg] result >= 0
